@@ -207,3 +207,32 @@ def run(ctx, model_ok):
             ctx.violation("declaring / assigning the predeclared name `print`: not a located diagnostic or success", src, {"cli": core.run_cli(src)})
     tie.report_disagreements(ctx, dis, "predeclared_print")
 
+    # a loop iteration's declarations are gone when the iteration ends — whether it ends normally, by `continue`, or the loop
+    # by `break`: the next iteration may declare the name again, and cannot read the previous iteration's
+    loops = {"while": ("i := 0\nwhile i < 3 {\n    i += 1\n@B}\n", "i"), "for": ("for [k, i] in [1, 2, 3] {\n@B}\n", "i"),
+             "for-range": ("for [k, i] in 1 .. 4 {\n@B}\n", "i")}
+    bodies = [
+        ("redeclare-after-continue", "    seen := i\n    if i < 3 {\n        continue\n    }\n    print(seen)\n", "3\n", "0"),
+        ("redeclare-normal", "    seen := i * 10\n    print(seen)\n", "10\n20\n30\n", "0"),
+        ("stale-read-after-continue", "    if i == 2 {\n        print(leak)\n    }\n    leak := i\n    continue\n", "", "103"),
+        ("stale-read-normal", "    if i == 2 {\n        print(leak)\n    }\n    leak := i\n", "", "103"),
+        ("declared-in-nested-block-then-continue", "    {\n        tmp := i\n        if i == 1 {\n            continue\n        }\n    }\n    tmp := i * 2\n    print(tmp)\n",
+         "4\n6\n", "0"),
+        ("fn-declared-then-continue", "    fn h() {\n        return i\n    }\n    if i < 3 {\n        continue\n    }\n    print(h())\n", "3\n", "0"),
+        ("after-break-outer-name-free", "    last := i\n    break\n", "", "0"),
+    ]
+    lcases = []
+    for lname, (tmpl, _) in loops.items():
+        for bname, body, out, st in bodies:
+            src = tmpl.replace("@B", body) + ("last := 0\nprint(last)\n" if bname.startswith("after-break") else "")
+            lcases.append(((lname, bname), src, out + ("0\n" if bname.startswith("after-break") else ""), st))
+    limpl, ldis = tie.run(ctx, [c[1] for c in lcases], "loop_iteration_scope", model_ok, project=tie.proj_full)
+    lbad = set()
+    for (key, src, out, st), r in zip(lcases, limpl):
+        ctx.nontrivial(("loop-scope",) + key)
+        if (r["stdout"], r["status"]) != (out, st) or (st == "103" and "'leak' is not defined" not in r["stderr"]):
+            c = core.run_cli(src)
+            if (c["stdout"], c["status"]) != (out, st) or (st == "103" and "'leak' is not defined" not in c["stderr"]):
+                lbad.add(src)
+                ctx.violation(f"declarations of a loop iteration ({key[0]}, {key[1]}): expected stdout {out!r} and status {st}", src, {"cli": c})
+    tie.report_disagreements(ctx, [d for d in ldis if d[0] not in lbad], "loop_iteration_scope")
